@@ -10,4 +10,5 @@ INVARIANT TypeOK
 INVARIANT RefPartial
 INVARIANT RefConvOK
 INVARIANT ImplAgrees
+INVARIANT StepsAreImplCall
 CHECK_DEADLOCK FALSE
